@@ -30,6 +30,10 @@ var dpkgStatuses = []struct {
 
 func dpkgName(r *rand.Rand) string { return word(r, lower+digits, 1, 1) + word(r, lower+digits+"+-.", 1, 14) }
 func dpkgVer(r *rand.Rand) string {
+	return edgeVer(r, []string{"1", "9", "0", "10", "1a", "1:2.3.4.5.6.7.8.9+really10.11.12~rc1+git20240101.abcdef0-0ubuntu0.22.04.1+esm1"}, dpkgVerUsual(r))
+}
+
+func dpkgVerUsual(r *rand.Rand) string {
 	return pick(r, []string{"", "", "1:", "2:"}) + word(r, digits, 1, 2) + "." + word(r, digits+lower+".+~", 0, 8) + pick(r, []string{"", "-1", "-1ubuntu2.3", "-0+deb12u1", "~rc1-2"})
 }
 
@@ -307,6 +311,10 @@ func pepName(r *rand.Rand) string {
 }
 
 func pepVer(r *rand.Rand) string {
+	return edgeVer(r, []string{"1", "9", "0", "10", "1a", "2024", "1!2024.10.20.30.40.50.post1.dev3+local.version.identifier.1"}, pepVerUsual(r))
+}
+
+func pepVerUsual(r *rand.Rand) string {
 	return pick(r, []string{"", "", "", "1!"}) + word(r, digits, 1, 3) + "." + word(r, digits, 1, 2) + pick(r, []string{"", ".0", ".post1", "a1", "rc2", ".dev3", "+local.1"})
 }
 
